@@ -237,6 +237,14 @@ class ValueSpecBase(ValueSpec):
       raise TypeError(f'{self!r} cannot extend {base!r}: '
                       f'None is not allowed in base spec.')
     self._extend(base)  # pytype: disable=wrong-arg-types  # always-use-return-annotations
+    if self.frozen and self._default is not None:
+      # The frozen value must satisfy the constraints inherited from the base.
+      try:
+        self._validate(utils.KeyPath(), self._default)
+      except ValueError as e:
+        raise TypeError(
+            f'{self!r} cannot extend {base!r}: frozen value '
+            f'{self._default!r} is not acceptable to the base spec.') from e
     return self
 
   def _extend(self, base: ValueSpec) -> None:
